@@ -11,6 +11,7 @@ import (
 	"testing"
 	"time"
 
+	appsv1 "k8s.io/api/apps/v1"
 	corev1 "k8s.io/api/core/v1"
 	policy "k8s.io/api/policy/v1"
 	metav1 "k8s.io/apimachinery/pkg/apis/meta/v1"
@@ -33,6 +34,7 @@ import (
 
 	"github.com/koordinator-sh/koordinator/apis/scheduling/v1alpha1"
 	deschedulerconfig "github.com/koordinator-sh/koordinator/pkg/descheduler/apis/config"
+	"github.com/koordinator-sh/koordinator/pkg/descheduler/controllers/migration/controllerfinder"
 	"github.com/koordinator-sh/koordinator/pkg/descheduler/fieldindex"
 	"github.com/koordinator-sh/koordinator/pkg/descheduler/framework"
 	"github.com/koordinator-sh/koordinator/pkg/descheduler/utils/sorter"
@@ -41,11 +43,13 @@ import (
 
 // C16 stream arbitration: the real arbitratorImpl (doOnceArbitrate, Filter, the event handler)
 // with the real filter built by filter.initFilters, the four real sort functions of New(), on the
-// controller-runtime fake client with the five production field indexes registered. Only the
-// controller finder (workload -> pods, replicas) and the framework handle are harness fakes.
+// controller-runtime fake client with the five production field indexes registered, and the REAL
+// controllerfinder.ControllerFinder on that client (ReplicaSet objects carry the replica counts; for
+// owner kind Job, which the real finder can only resolve through the scale client, the wrapper below
+// uses the real ListPodsByWorkloads with the caller's `active` flag). Only the framework handle is a fake.
 //
 // input :  16 (stream tag)  maxGlobal maxNode maxNs mmKind mmVal muKind muVal skipExpected
-//          P (ns node wl prio ptime ready forbid)*P   W (replicas isJobKind)*W   J (pod time)*J
+//          P (ns node wl prio ptime ready forbid state)*P   W (replicas isJobKind)*W   J (pod time)*J
 //          K (op a b)*K
 //   kinds: 0 nil, 1 int, 2 percent.  pod ids 1..P, workload ids 1..W (0 none), job ids 1..J
 //   ops:   1 Add j        create PodMigrationJob j in the API + Create event
@@ -56,6 +60,9 @@ import (
 //          6 DeletePod p
 //          7 Filter p     arbitrator.Filter(pod)
 //          8 Evict j      arbitrator.Filter(pod of j); if true, Add j  (what Reconciler.Evict does)
+//          9 SetPodState p v   1: delete the pod (it stays, terminating, held by a finalizer);
+//                              2 / 3: phase Failed / Succeeded; 0: phase Running
+//   pod state (initial): 0 running, 1 terminating, 2 Failed, 3 Succeeded
 // observable per op:  for every job 1..J (phase|-1 if not in the API, passed annotation, in
 //          waitingCollection, in arbitrated map), then the Filter result (-1 when not a Filter/Evict op)
 
@@ -93,35 +100,27 @@ func vtC16Discovery(fk *coretesting.Fake) {
 	})
 }
 
-// workload -> (pods, replicas), computed from the API objects
+// the real ControllerFinder; owner kind Job goes through the real ListPodsByWorkloads (same `active`
+// semantics) with the replica count of the input, because resolving it needs the scale client
 type vtC16Finder struct {
-	c        client.Client
+	real     *controllerfinder.ControllerFinder
 	replicas map[types.UID]int32
 }
 
 func (f *vtC16Finder) ListPodsByWorkloads(workloadUIDs []types.UID, ns string, labelSelector *metav1.LabelSelector, active bool) ([]*corev1.Pod, error) {
-	return nil, nil
+	return f.real.ListPodsByWorkloads(workloadUIDs, ns, labelSelector, active)
 }
 
 func (f *vtC16Finder) GetPodsForRef(ref *metav1.OwnerReference, ns string, labelSelector *metav1.LabelSelector, active bool) ([]*corev1.Pod, int32, error) {
-	list := &corev1.PodList{}
-	if err := f.c.List(context.TODO(), list, client.InNamespace(ns)); err != nil {
-		return nil, 0, err
+	if ref.Kind == JobKind {
+		pods, err := f.real.ListPodsByWorkloads([]types.UID{ref.UID}, ns, labelSelector, active)
+		return pods, f.replicas[ref.UID], err
 	}
-	var pods []*corev1.Pod
-	for i := range list.Items {
-		if o := metav1.GetControllerOf(&list.Items[i]); o != nil && o.UID == ref.UID {
-			pods = append(pods, &list.Items[i])
-		}
-	}
-	return pods, f.replicas[ref.UID], nil
+	return f.real.GetPodsForRef(ref, ns, labelSelector, active)
 }
 
 func (f *vtC16Finder) GetExpectedScaleForPod(pod *corev1.Pod) (int32, error) {
-	if o := metav1.GetControllerOf(pod); o != nil {
-		return f.replicas[o.UID], nil
-	}
-	return 0, nil
+	return f.real.GetExpectedScaleForPod(pod)
 }
 
 // fails client.Update for the chosen job names (the arbitrator's updatePassedJob)
@@ -176,10 +175,10 @@ func vtC16ArbExec(in []int64) []int64 {
 	maxG, maxNode, maxNs := next(), next(), next()
 	mmKind, mmVal, muKind, muVal, skipExp := next(), next(), next(), next(), next()
 	np := int(next())
-	type podT struct{ ns, node, wl, prio, ptime, ready, forbid int64 }
+	type podT struct{ ns, node, wl, prio, ptime, ready, forbid, state int64 }
 	podsIn := make([]podT, np+1)
 	for i := 1; i <= np; i++ {
-		podsIn[i] = podT{next(), next(), next(), next(), next(), next(), next()}
+		podsIn[i] = podT{next(), next(), next(), next(), next(), next(), next(), next()}
 	}
 	nw := int(next())
 	type wlT struct{ replicas, isjob int64 }
@@ -253,10 +252,17 @@ func vtC16ArbExec(in []int64) []int64 {
 			ObjectMeta: metav1.ObjectMeta{
 				Name: podName(i), Namespace: nsName(p.ns), UID: types.UID(fmt.Sprintf("up%02d", i)),
 				Annotations:       map[string]string{},
+				Finalizers:        []string{"verif.koordinator.sh/hold"}, // keeps a deleted pod around as terminating
 				CreationTimestamp: metav1.Time{Time: vtC16Base.Add(time.Duration(p.ptime) * time.Second)},
 			},
 			Spec:   corev1.PodSpec{Priority: &prio},
 			Status: corev1.PodStatus{Phase: corev1.PodRunning},
+		}
+		switch p.state {
+		case 2:
+			pod.Status.Phase = corev1.PodFailed
+		case 3:
+			pod.Status.Phase = corev1.PodSucceeded
 		}
 		if p.node != 0 {
 			pod.Spec.NodeName = fmt.Sprintf("n%02d", p.node)
@@ -282,14 +288,38 @@ func vtC16ArbExec(in []int64) []int64 {
 		pod.Status.Conditions = []corev1.PodCondition{{Type: corev1.PodReady, Status: st}}
 		return pod
 	}
+	nsSeen := map[int64]bool{}
 	for i := 1; i <= np; i++ {
-		if err := fc.Create(ctx, mkPod(i)); err != nil {
+		pod := mkPod(i)
+		if err := fc.Create(ctx, pod); err != nil {
 			panic(err)
 		}
+		if podsIn[i].state == 1 {
+			if err := fc.Delete(ctx, pod); err != nil {
+				panic(err)
+			}
+		}
+		nsSeen[podsIn[i].ns] = true
 	}
 	replicas := map[types.UID]int32{}
 	for i := 1; i <= nw; i++ {
-		replicas[types.UID(fmt.Sprintf("uw%02d", i))] = int32(wls[i].replicas)
+		uid := types.UID(fmt.Sprintf("uw%02d", i))
+		replicas[uid] = int32(wls[i].replicas)
+		if wls[i].isjob != 0 {
+			continue
+		}
+		// the workload object the real finder reads the replica count from, in every namespace in use
+		for ns := range nsSeen {
+			rep := int32(wls[i].replicas)
+			rs := &appsv1.ReplicaSet{
+				TypeMeta:   metav1.TypeMeta{Kind: "ReplicaSet", APIVersion: "apps/v1"},
+				ObjectMeta: metav1.ObjectMeta{Namespace: nsName(ns), Name: fmt.Sprintf("w%02d", i), UID: uid},
+				Spec:       appsv1.ReplicaSetSpec{Replicas: &rep},
+			}
+			if err := fc.Create(ctx, rs); err != nil {
+				panic(err)
+			}
+		}
 	}
 
 	skip := skipExp != 0
@@ -309,7 +339,7 @@ func vtC16ArbExec(in []int64) []int64 {
 		client:                     fc,
 		clock:                      clock.RealClock{},
 		args:                       args,
-		controllerFinder:           &vtC16Finder{c: fc, replicas: replicas},
+		controllerFinder:           &vtC16Finder{real: &controllerfinder.ControllerFinder{Client: fc}, replicas: replicas},
 		arbitratedPodMigrationJobs: map[types.UID]bool{},
 	}
 	if err := f.initFilters(args, handle); err != nil {
@@ -438,8 +468,31 @@ func vtC16ArbExec(in []int64) []int64 {
 			}
 		case 6:
 			if pod := getPod(int(x)); pod != nil {
-				if err := fc.Delete(ctx, pod); err != nil {
+				terminating := pod.DeletionTimestamp != nil
+				pod.Finalizers = nil
+				if err := fc.Update(ctx, pod); err != nil { // a terminating pod disappears with its last finalizer
 					panic(err)
+				}
+				if !terminating {
+					if err := fc.Delete(ctx, pod); err != nil {
+						panic(err)
+					}
+				}
+			}
+		case 9:
+			if pod := getPod(int(x)); pod != nil {
+				switch y {
+				case 1:
+					if pod.DeletionTimestamp == nil {
+						if err := fc.Delete(ctx, pod); err != nil {
+							panic(err)
+						}
+					}
+				case 0, 2, 3:
+					pod.Status.Phase = map[int64]corev1.PodPhase{0: corev1.PodRunning, 2: corev1.PodFailed, 3: corev1.PodSucceeded}[y]
+					if err := fc.Status().Update(ctx, pod); err != nil {
+						panic(err)
+					}
 				}
 			}
 		case 7:
@@ -532,7 +585,11 @@ func vtC16ArbGen(r *rand.Rand, idx int) (string, []int64) {
 		if r.Intn(10) == 0 {
 			node = 0
 		}
-		in = append(in, ns, node, wl, int64(r.Intn(3)), int64(ptimes[i-1]), vtB(r.Intn(5) != 0), vtB(r.Intn(12) == 0))
+		state := int64(0)
+		if r.Intn(8) == 0 {
+			state = int64(1 + r.Intn(3))
+		}
+		in = append(in, ns, node, wl, int64(r.Intn(3)), int64(ptimes[i-1]), vtB(r.Intn(5) != 0), vtB(r.Intn(12) == 0), state)
 	}
 	in = append(in, int64(nw))
 	for w := 1; w <= nw; w++ {
@@ -568,7 +625,10 @@ func vtC16ArbGen(r *rand.Rand, idx int) (string, []int64) {
 	for k := 0; k < extra; k++ {
 		j := int64(1 + r.Intn(nj))
 		p := int64(1 + r.Intn(np))
-		switch r.Intn(12) {
+		switch r.Intn(14) {
+		case 12, 13:
+			// a replica is torn down / fails between two rounds (e.g. the pod of a job that just completed)
+			ops = append(ops, [3]int64{9, p, []int64{1, 1, 2, 3, 0}[r.Intn(5)]})
 		case 0, 1, 2, 3:
 			f := int64(0)
 			if r.Intn(6) == 0 {
